@@ -107,7 +107,7 @@ class SMTwist(SMUserList):
         if len(self) == 1:
             return base.iszerovec(self.w)
         else:
-            return [base.iszerovec(x.w) for x in self.data]
+            return [base.iszerovec(x.w) for x in self]
 
     @property
     def isrevolute(self):
@@ -133,7 +133,7 @@ class SMTwist(SMUserList):
         if len(self) == 1:
             return base.iszerovec(self.v)
         else:
-            return [base.iszerovec(x.v) for x in self.data]
+            return [base.iszerovec(x.v) for x in self]
 
 
     @property
@@ -893,7 +893,7 @@ class Twist3(SMTwist):
 
         :seealso: :func:`spatialmath.base.trexp`
         """
-        if units != 'rad' and self.isprismatic:
+        if units != 'rad' and np.any(self.isprismatic):
             print('Twist3.exp: using degree mode for a prismatic twist')
 
         if theta is None:
@@ -1363,7 +1363,7 @@ class Twist2(SMTwist):
         :seealso: :func:`spatialmath.base.trexp2`
         """
 
-        if units != 'rad' and self.isprismatic:
+        if units != 'rad' and np.any(self.isprismatic):
             print('Twist3.exp: using degree mode for a prismatic twist')
 
         if theta is None:
